@@ -50,16 +50,21 @@ def lensFromEos (tok : List Int) (eos : Int) : Nat :=
 /-- Out-of-vocabulary test `hyp.lt(0) | hyp.ge(num_classes)`. -/
 def oov (V : Nat) (h : Int) : Bool := decide (h < 0) || decide ((V : Int) ≤ h)
 
+/-- The mask of one sequence: out of vocabulary, or (with `eos`) at or beyond
+`_lens_from_eos + 1`. -/
+def seqMask (V : Nat) (eos : Option Int) (col : List Int) : List Bool :=
+  let mask0 := col.map (oov V)
+  match eos with
+  | none => mask0
+  | some e =>
+    let lens := lensFromEos col e + 1
+    let lenMask := (List.range col.length).map (fun t => decide (lens ≤ t))
+    List.zipWith (fun a b => a || b) mask0 lenMask
+
 /-- The score of the sequence `col` (tokens along `dim`) where `f t v` is the log-softmax value
 of class `v` at step `t`: the mask, fill, gather, fill, sum pipeline of the code. -/
 def colScore (V : Nat) (eos : Option Int) (f : Nat → Nat → Rat) (col : List Int) : Rat :=
-  let mask0 := col.map (oov V)
-  let mask := match eos with
-    | none => mask0
-    | some e =>
-      let lens := lensFromEos col e + 1
-      let lenMask := (List.range col.length).map (fun t => decide (lens ≤ t))
-      List.zipWith (fun a b => a || b) mask0 lenMask
+  let mask := seqMask V eos col
   let hyp0 := List.zipWith (fun (m : Bool) (h : Int) => if m then 0 else h) mask col
   let gathered := hyp0.zipIdx.map (fun ht => f ht.2 ht.1.toNat)
   let filled := List.zipWith (fun (m : Bool) (x : Rat) => if m then 0 else x) mask gathered
@@ -124,6 +129,13 @@ def lensOfBatchSizes (N : Nat) (bs : List Nat) : List Nat :=
 def batchSizesOfLens (lens : List Nat) : List Nat :=
   (List.range (lens.headD 0)).map (fun t => (lens.filter (fun l => decide (t < l))).length)
 
+/-- `torch.index_select(hyp, batch_dim, sorted_indices)`: index (in the caller's order) of the
+`i`-th sequence of the packed batch; the identity when `sorted_indices` is `None`. -/
+def sortIdx (sidx : Option (List Nat)) (i : Nat) : Nat :=
+  match sidx with
+  | none => i
+  | some s => s.getD i 0
+
 /-- `_sequence_log_probs_ps((data, batch_sizes, sorted_indices, unsorted_indices), hyp, dim)`.
 `lsm r v` is the log-softmax value of class `v` in packed row `r`; `hyp n t` is the token of
 sequence `n` (in the caller's order) at step `t`; `N`, `T` the sizes of `hyp`.
@@ -131,9 +143,7 @@ sequence `n` (in the caller's order) at step `t`; `N`, `T` the sizes of `hyp`.
 sequences than the packed batch, no sequence at all, or steps missing in `hyp`). -/
 def seqLogProbsPacked (V N T : Nat) (lsm : Nat → Nat → Rat) (bs : List Nat)
     (sidx uidx : Option (List Nat)) (hyp : Nat → Nat → Int) : Option (List Rat) :=
-  let hypS : Nat → Nat → Int := match sidx with
-    | none => hyp
-    | some s => fun i t => hyp (s.getD i 0) t
+  let hypS : Nat → Nat → Int := fun i t => hyp (sortIdx sidx i) t
   let lens := lensOfBatchSizes N bs
   if N = 0 || lens.any (· == 0) || decide (T < lens.headD 0) then none else
   let bs' := batchSizesOfLens lens
